@@ -69,7 +69,13 @@ class G:
         if infer:
             m = onnx.shape_inference.infer_shapes(m, data_prop=True)
         if check:
-            onnx.checker.check_model(m)
+            try:
+                onnx.checker.check_model(m)
+            except onnx.checker.ValidationError as e:
+                # ORT-only ops (SimplifiedLayerNormalization, contrib ops): unknown to the checker / to shape inference
+                ort_only = any(n.domain not in ("", "ai.onnx") or n.op_type == "SimplifiedLayerNormalization" for n in m.graph.node)
+                if not ort_only:
+                    raise
         return m
 
 
